@@ -138,7 +138,7 @@ def _run(ctx):
 
     # ---- R3 parse actions ---------------------------------------------------------
     p1, p2 = sp.symbols("p1 p2", positive=True)
-    I.positive = [100 - p1 - p2]      # the percentages leave a positive remainder
+    I.positive = [100 - p1 - p2, 100 - p1, 100 - p2]      # the percentages leave a positive remainder
     for mode in ("weight", "volume"):
         act = action(I, w, f"convert_by_{mode}")
         hf = I.global_name("formulas", f"_mix_by_{mode}_pairs")
